@@ -130,7 +130,10 @@ def run(chk):
         feh, a0, a1, a2 = r
         o = objs[feh]
         ms = np.sort(10 ** np.array([rng.uniform(math.log10(0.05), math.log10(300)) for _ in range(60)]))
+        ms_before = ms.copy()
         tm = o.compute_tms(ms)
+        if not np.array_equal(ms, ms_before):
+            chk.fail("lifetimes of a mass grid leave the grid as it was", dict(feh=feh, masses=ms_before.tolist()), ms.tolist())
         if not np.all(np.diff(tm) < 0):
             chk.fail("lifetime decreases strictly with mass", dict(feh=feh, masses=ms.tolist()), tm.tolist())
         ts = np.sort(a0 * (1 + 10 ** np.array([rng.uniform(-6, 6) for _ in range(60)])))
@@ -152,7 +155,15 @@ def run(chk):
             chk.note_distinct(case)
             for form in ("ndarray", "list"):
                 try:
-                    got = [float(x) for x in o.compute_mto(np.array(ts) if form == "ndarray" else ts)]
+                    arg = np.array(ts, dtype=float) if form == "ndarray" else list(ts)
+                    got = [float(x) for x in o.compute_mto(arg)]
+                    # the same grid object asked again: the turn-off mass is a function of the age, so a float64 grid that
+                    # is reused (as a caller evaluating tms(mto(t)) against t does) must still hold the ages and give the same answer
+                    again = [float(x) for x in o.compute_mto(arg)]
+                    if [float(x) for x in arg] != [float(x) for x in ts] or not C.all_same(got, again):
+                        chk.fail("turn-off masses of a reused age grid: the grid still holds the ages and a second call returns the same masses",
+                                 dict(case, form=form), dict(grid_after=[float(x) for x in arg], first=got, second=again))
+                        continue
                 except Exception as e:  # noqa
                     if form == "ndarray":
                         chk.fail("turn-off masses of an array of ages are returned without raising", case, dict(error=type(e).__name__, msg=str(e)[:80]))
